@@ -508,7 +508,9 @@ impl TraceOracle for C10 {
                             note(self, m);
                         }
                     }
-                    if matches!(p.header.message, Message::TurnUndead) {
+                    // (only the TurnUndead foca itself can send: nothing after the header — one that carries
+                    //  updates may make the instance idle before the message is looked at)
+                    if matches!(p.header.message, Message::TurnUndead) && p.section.is_none() && p.items.is_empty() {
                         own_down = true;
                     }
                 }
@@ -706,6 +708,9 @@ pub fn make_oracle(prop: &str, setup: &Setup) -> Option<Box<dyn TraceOracle>> {
         "C10" => Box::new(C10::new()),
         "C11" => Box::new(C11::new()),
         "C19" => Box::new(C19),
+        "C12" => Box::new(crate::oracle2::C12::new()),
+        "C15" => Box::new(crate::oracle2::C15::new()),
+        "C16" => Box::new(crate::oracle2::C16 { max_tx_ever: 0 }),
         _ => return None,
     })
 }
